@@ -425,6 +425,9 @@ def r10f(ctx, P):
     ctx.floor(rid, n, 1, "document-length write (_len:<field>) in the segment build")
 
 
+THOROUGH_FEATURES = ['r10a', 'r10b', 'r10c', 'r10d', 'r10e', 'r10f']
+
+
 def run(ctx, progs):
     P = progs.get("default")
     r10f(ctx, P)
